@@ -19,7 +19,7 @@ fn representative(class: usize, rng: &mut Rng) -> Result<Value, String> {
         2 => [json!(0), json!(-1.5), json!(42), json!(1000.0), json!(-7), json!(0.25)][rng.below(6)].clone(),
         3 => [json!(""), json!("a"), json!("é日"), json!("12"), json!("abc"), json!("\"abc\""), json!("[1]"), json!("true"), json!("null"), json!("{\"a\": 1}"), json!("-1.5e2"), json!("0x10")][rng.below(12)].clone(),
         4 => json!([]),
-        5 => [json!([1]), json!([3, 1, 2]), json!([0.5, -1]), json!([2, 2, 1])][rng.below(4)].clone(),
+        5 => [json!([1]), json!([3, 1, 2]), json!([0.5, -1]), json!([2, 2, 1]), json!([1e308, 1e308]), json!([-1e308, -1e308, -1e308])][rng.below(6)].clone(),
         6 => [json!(["a"]), json!(["b", "a"]), json!(["", "é", "a"])][rng.below(3)].clone(),
         7 => [json!([1, "a"]), json!([null]), json!([[1]]), json!([{"a": 1}, {"a": "x"}]), json!([true, false]), json!(["a", 1])][rng.below(6)].clone(),
         8 => [json!({}), json!({"a": 1}), json!({"a": "x", "b": [1]})][rng.below(3)].clone(),
@@ -81,6 +81,7 @@ pub fn run(args: &Args) {
         }
     }
     rep.add("cells", cells_done);
+    expref_return_table(&mut rep, args);
     // unknown inner call is reported, not the outer: arguments are evaluated first
     if args.shard == 0 {
         for (text, inner) in [("length(nofn(@))", "nofn"), ("nofn(nofn2(@))", "nofn2"), ("abs(x, nofn3(`1`))", "nofn3")] {
@@ -95,6 +96,69 @@ pub fn run(args: &Args) {
         }
     }
     emit_report(args, &rep);
+}
+
+/// The second half of the *_by signatures: the expression reference must yield a number for
+/// every element or a string for every element. Exhaustive over key-type sequences.
+fn expref_return_table(rep: &mut Report, args: &Args) {
+    let reps: [[Value; 2]; 6] = [
+        [json!(null), json!(null)],
+        [json!(true), json!(false)],
+        [json!(3), json!(-0.5)],
+        [json!("a"), json!("")],
+        [json!([1]), json!([])],
+        [json!({"a": 1}), json!({})],
+    ];
+    let tn = ["null", "boolean", "number", "string", "array", "object"];
+    let mut idx: u64 = 0;
+    for name in ["sort_by", "max_by", "min_by"] {
+        for len in 0..=4usize {
+            for code in 0..6u64.pow(len as u32) {
+                idx += 1;
+                if idx % args.shards != args.shard {
+                    continue;
+                }
+                let mut classes = vec![];
+                let mut x = code;
+                for _ in 0..len {
+                    classes.push((x % 6) as usize);
+                    x /= 6;
+                }
+                for variant in 0..2usize {
+                    let arr: Vec<Value> = classes.iter().enumerate().map(|(i, c)| json!({"id": i, "k": reps[*c][(i + variant) % 2].clone()})).collect();
+                    let doc = Value::Array(arr);
+                    let uniform = classes.iter().all(|c| *c == 2) || classes.iter().all(|c| *c == 3);
+                    for text in [format!("{}(@, &k)", name), format!("{}(@, &not_null(k, k))", name)] {
+                        rep.evaluations += 1;
+                        let got = guarded(|| jmespath::compile(&text).and_then(|e| e.search(rcvar_of(&doc))));
+                        let cell = format!("{}/keys:{}", name, classes.iter().map(|c| tn[*c]).collect::<Vec<_>>().join(","));
+                        let w = |exp: &str, got: String| json!({"expression": text, "document": doc, "cell": cell, "expected": exp, "got": got});
+                        match got {
+                            Err(p) => rep.violation(&format!("C06/panic/{}", panic_site(&p)), w("no panic", p)),
+                            Ok(Ok(v)) if uniform => {
+                                let t = v.get_type().to_string();
+                                let ok = if name == "sort_by" { v.is_array() } else if len == 0 { v.is_null() } else { v.is_object() };
+                                if ok {
+                                    rep.count("expref_return_table/accepted");
+                                    rep.nontrivial(fnv(cell.as_bytes()));
+                                } else {
+                                    rep.violation(&format!("C06/undeclared-result-type/fn={}", name), w("array / element / null", t));
+                                }
+                            }
+                            Ok(Ok(v)) => rep.violation(&format!("C06/ill-formed-call-accepted/fn={}", name), w("invalid-type: keys must be all numbers or all strings", v.to_string())),
+                            Ok(Err(e)) if !uniform && err_class(&e) == "type" => {
+                                rep.count("expref_return_table/rejected");
+                                rep.nontrivial(fnv(cell.as_bytes()));
+                            }
+                            Ok(Err(e)) if uniform => rep.violation(&format!("C06/well-typed-call-rejected/fn={}", name), w("accepted", e.to_string())),
+                            Ok(Err(e)) => rep.violation(&format!("C06/wrong-error-kind/fn={}", name), w("type", err_class(&e).into())),
+                        }
+                    }
+                }
+            }
+        }
+    }
+    rep.add("expref_return_table_cells", idx / args.shards);
 }
 
 fn one_cell(rep: &mut Report, ev: &Evaluator, strict: &Opts, name: &str, classes: &[usize], rng: &mut Rng, r: u64) {
@@ -142,6 +206,23 @@ fn one_cell(rep: &mut Report, ev: &Evaluator, strict: &Opts, name: &str, classes
     };
     let arg0 = ref_args.get(0).and_then(|a| if let Arg::Val(v) = a { Some(v) } else { None });
     match (expected, got) {
+        // The reference cannot name the value (an arithmetic result outside the doubles, a padded
+        // numeral), but the call is well-typed: it must not fail with a signature error, and if it
+        // returns, the result must still have the declared type.
+        (Err(ErrKind::Unconstrained(why)), got) if !why.contains("expression reference") => {
+            rep.count("unconstrained_value_but_well_typed");
+            match got {
+                Err(e) if ["arity", "type", "unknown-function"].contains(&err_class(&e)) => {
+                    rep.violation(&format!("C06/well-typed-call-rejected/fn={}", name), witness(format!("no signature error ({})", why), err_class(&e).into()))
+                }
+                Err(_) => {}
+                Ok(v) => match value_of(&v) {
+                    Ok(gv) if declared_result_ok(name, arg0, &gv) => {}
+                    Ok(gv) => rep.violation(&format!("C06/undeclared-result-type/fn={}", name), witness(format!("declared type ({})", why), gv.to_string())),
+                    Err(w) => rep.violation(&format!("C06/undeclared-result-type/fn={}", name), witness(format!("declared type ({})", why), w.into())),
+                },
+            }
+        }
         (Err(ErrKind::Unconstrained(_)), _) => rep.count("unconstrained_cells"),
         (Err(k), Err(e)) => {
             let want = match k {
